@@ -27,6 +27,7 @@ import (
 	"sort"
 	"strings"
 	"sync"
+	"syscall"
 	"testing"
 	"time"
 
@@ -105,7 +106,15 @@ func vfE8LTree(root string) map[string][]byte {
 			if err != nil || fi.IsDir() {
 				return nil
 			}
-			if raw, err := os.ReadFile(p); err == nil {
+			raw, err := os.ReadFile(p)
+			if err != nil && fi.Mode().Perm()&0o444 == 0 {
+				// a write-only file (round 11): the observer (owner or root) makes it readable for the instant of the look
+				if os.Chmod(p, fi.Mode().Perm()|0o400) == nil {
+					raw, err = os.ReadFile(p)
+					os.Chmod(p, fi.Mode().Perm())
+				}
+			}
+			if err == nil {
 				rel, _ := filepath.Rel(root, p)
 				res[rel] = raw
 			}
@@ -233,6 +242,86 @@ func vfE8LProbe() {
 	}
 }
 
+// ---------------------------------------------------------------- round 11 (F47b): files the tool cannot read
+
+// vfE8LUnreadableCmd prepares `cmd` so that the child can create files it may write but not read (mode 0222, the
+// drop-box case): a non-root user cannot read its own 0222 file; root can (CAP_DAC_OVERRIDE), so as root the child runs
+// as uid/gid 65534 and `dir` (where it works) is made world-writable. Returns how the fault is injected.
+func vfE8LUnreadableCmd(cmd *exec.Cmd, dir string) string {
+	if os.Geteuid() != 0 {
+		return "chmod-0222"
+	}
+	os.Chmod(dir, 0o777)
+	cmd.SysProcAttr = &syscall.SysProcAttr{Credential: &syscall.Credential{Uid: 65534, Gid: 65534}}
+	return "chmod-0222+uid-65534"
+}
+
+// vfE8LMakeUnreadable: write-only for everybody; true iff this process indeed cannot open it for reading but can for appending
+func vfE8LMakeUnreadable(p string) bool {
+	if os.Chmod(p, 0o222) != nil {
+		return false
+	}
+	if r, err := os.Open(p); err == nil {
+		r.Close()
+		return false
+	}
+	w, err := os.OpenFile(p, os.O_WRONLY|os.O_APPEND, 0)
+	if err != nil {
+		return false
+	}
+	w.Close()
+	return true
+}
+
+var vfE8LSRWOnce sync.Once
+var vfE8LSRW = -1
+var vfE8LSRWHow = "?"
+
+// vfE8ProbeSealReadWarns runs the REAL updateFile() (and through it sealTornTail) in a child process on an existing
+// plain file that ends inside a record and that the child may append to but not read. 0 = the read failure is fatal
+// (FATAL logged, exit 1, file untouched: committed F47, Cfg.sealReadWarns = false); 1 = a WARN is logged, updateFile()
+// returns and the file is left unsealed for appending (F47b, Cfg.sealReadWarns = true); -1 = neither (or the fault could
+// not be injected). Probed once per check: the result travels to the children in VF_E8_SRW.
+func vfE8ProbeSealReadWarns() int {
+	vfE8LSRWOnce.Do(func() {
+		if v := os.Getenv("VF_E8_SRW"); v != "" {
+			fmt.Sscanf(v, "%d %s", &vfE8LSRW, &vfE8LSRWHow)
+			return
+		}
+		defer func() { os.Setenv("VF_E8_SRW", fmt.Sprintf("%d %s", vfE8LSRW, vfE8LSRWHow)) }()
+		dir, err := os.MkdirTemp(os.Getenv("VERIF_OUT"), "vfe8srw")
+		if err != nil {
+			return
+		}
+		defer os.RemoveAll(dir)
+		bin := os.Args[0]
+		cmd := exec.Command("timeout", "-s", "KILL", "60", bin, "-test.run", "^TestVerifToFileLinesChild$", "-test.count=1", "-test.timeout=0")
+		cmd.Env = append(os.Environ(), "VF_E8_LINES_CASE=probe-unreadable", "VF_E8_LINES_ROOT="+dir, "VF_E8_SRW=-1 nested")
+		vfE8LSRWHow = vfE8LUnreadableCmd(cmd, dir)
+		out, err := cmd.Output()
+		code := 0
+		if ee, ok := err.(*exec.ExitError); ok {
+			code = ee.ExitCode()
+		} else if err != nil {
+			vfE8LSRWHow += ":start-error"
+			return
+		}
+		txt := string(out)
+		raw := vfE8LTree(dir)["o/seal.log"]
+		switch {
+		case !strings.Contains(txt, "PROBE unreadable=true"):
+			vfE8LSRWHow += ":not-injected"
+		case code == 1 && strings.Contains(txt, "PROBE log FATAL") && !strings.Contains(txt, "PROBE returned") && string(raw) == "ab\ncd":
+			vfE8LSRW = 0
+		case code == 0 && strings.Contains(txt, "PROBE log WARN") && strings.Contains(txt, "PROBE returned") && string(raw) == "ab\ncd":
+			vfE8LSRW = 1
+		default:
+			vfE8LSRWHow += fmt.Sprintf(":unknown-shape(exit=%d,file=%q)", code, raw)
+		}
+	})
+	return vfE8LSRW
+}
+
 // ---------------------------------------------------------------- child: one scenario
 
 type vfE8LChild struct {
@@ -258,8 +347,8 @@ func vfE8LB(x bool) int {
 
 // conf line of the model for a scenario (gzip off, skip-empty off, max-in-flight 1)
 func (c *vfE8LChild) conf(rotateSize int64, workDir bool, hasRev bool) {
-	c.say(fmt.Sprintf("tf conf 0 %d 0 %d 0 1 %d %d %d %d", rotateSize, vfE8LB(workDir), vfE8LB(hasRev),
-		vfE8LB(vfE8ProbeCloseClears()), vfE8LB(vfE8ProbeOneWrite()), vfE8LB(vfE8ProbeSealsTail())))
+	c.say(fmt.Sprintf("tf conf 0 %d 0 %d 0 1 %d %d %d %d %d", rotateSize, vfE8LB(workDir), vfE8LB(hasRev),
+		vfE8LB(vfE8ProbeCloseClears()), vfE8LB(vfE8ProbeOneWrite()), vfE8LB(vfE8ProbeSealsTail()), vfE8LB(vfE8ProbeSealReadWarns() == 1)))
 	c.ans("ok")
 }
 
@@ -339,6 +428,23 @@ func TestVerifToFileLinesChild(t *testing.T) {
 		t.Fatal(err)
 	}
 	c := &vfE8LChild{res: res, root: root}
+	if name == "probe-unreadable" {
+		// round 11: the real updateFile() on an existing torn file this process may append to but not read
+		os.MkdirAll(filepath.Join(root, "o"), 0o755)
+		opts := vfE8LOpts(root)
+		opts.FilenameFormat = "seal.log"
+		p := filepath.Join(root, "o", "seal.log")
+		os.WriteFile(p, []byte("ab\ncd"), 0o644)
+		fmt.Printf("PROBE unreadable=%v\n", vfE8LMakeUnreadable(p))
+		f := &FileLogger{logf: func(lvl lg.LogLevel, f string, args ...interface{}) {
+			if lvl >= lg.WARN {
+				fmt.Printf("PROBE log %s %s\n", lvl.String(), strings.Replace(fmt.Sprintf(f, args...), "\n", " ", -1))
+			}
+		}, opts: opts, topic: "t", filenameFormat: "seal.log"}
+		f.updateFile() // committed F47: os.Exit(1) in here
+		fmt.Printf("PROBE returned filesize=%d\n", f.filesize)
+		os.Exit(0)
+	}
 	os.MkdirAll(filepath.Join(root, "w"), 0o755)
 	os.MkdirAll(filepath.Join(root, "o"), 0o755)
 	opts := vfE8LOpts(root)
@@ -383,6 +489,40 @@ func TestVerifToFileLinesChild(t *testing.T) {
 		c.say(fmt.Sprintf("tf msg 1 %s %d %s 0", vfHex([]byte("bodyB")), time.Now().UnixNano(), vfHex([]byte(f.currentFilename()))))
 		id := r.deliver("bodyB")
 		c.fin("bodyB")
+		c.ans(c.state("running", id))
+		c.say("tf termstop")
+		r.stop()
+		c.ans(c.state("done", ""))
+		finish()
+	case "unreadable-torn", "unreadable-clean", "unreadable-empty":
+		// round 11 (F47b): the existing plain file is write-only for the tool (0222; as root the child runs as uid 65534).
+		// torn "A" + message "B": committed F47 -> FATAL, exit 1 inside the event, nothing FINished, file unchanged;
+		// F47b -> WARN, "AB\n", B FINished (Lean: Props.C19Lines.unreadable_torn_file_witness / _is_fatal_committed)
+		pre := map[string]string{"unreadable-torn": "A", "unreadable-clean": "A\n", "unreadable-empty": ""}[name]
+		opts.FilenameFormat = "lines.log"
+		p := filepath.Join(root, "o", "lines.log")
+		os.WriteFile(p, []byte(pre), 0o644)
+		c.note(fmt.Sprintf("unreadable=%v", vfE8LMakeUnreadable(p)))
+		cfg := nsq.NewConfig()
+		cfg.MaxInFlight = opts.MaxInFlight
+		f, err := NewFileLogger(func(lvl lg.LogLevel, f string, args ...interface{}) {
+			if lvl >= lg.WARN {
+				c.note("log-" + lvl.String()) // written before a FATAL's os.Exit(1)
+			}
+		}, opts, "t", cfg)
+		if err != nil {
+			t.Fatal(err)
+		}
+		f.consumer.SetLoggerLevel(nsq.LogLevelError)
+		c.conf(0, false, false)
+		c.say(fmt.Sprintf("tf pre o %s 0 %s", vfHex([]byte("lines.log")), vfHex([]byte(pre))))
+		c.ans("ok")
+		c.say("tf unreadable 1")
+		c.ans("ok")
+		r := vfE8LStart(f)
+		c.say(fmt.Sprintf("tf msg 1 %s %d %s 0", vfHex([]byte("B")), time.Now().UnixNano(), vfHex([]byte(f.currentFilename()))))
+		id := r.deliver("B") // committed F47, non-empty file: the process exits 1 in here; the parent completes the event
+		c.fin("B")
 		c.ans(c.state("running", id))
 		c.say("tf termstop")
 		r.stop()
@@ -433,8 +573,15 @@ func TestVerifToFileLinesChild(t *testing.T) {
 			pre = append(append(body(), '\n'), []byte("tail")...)
 			torn = true
 		}
+		unreadable := false
 		if havePre {
 			os.WriteFile(filepath.Join(root, "o", file), pre, 0o644)
+			if r0.Intn(4) == 0 { // round 11: one existing file in four is write-only for the tool
+				unreadable = vfE8LMakeUnreadable(filepath.Join(root, "o", file))
+				if !unreadable {
+					c.note("unreadable-not-injected")
+				}
+			}
 		}
 		f, err := vfE8LLogger(opts, "t")
 		if err != nil {
@@ -445,7 +592,13 @@ func TestVerifToFileLinesChild(t *testing.T) {
 			c.say(fmt.Sprintf("tf pre o %s 0 %s", vfHex([]byte(tmpl)), vfHex(pre)))
 			c.ans("ok")
 		}
+		if unreadable {
+			c.say("tf unreadable 1")
+			c.ans("ok")
+		}
 		c.note(fmt.Sprintf("torn=%v", torn))
+		c.note(fmt.Sprintf("unreadable=%v", unreadable))
+		c.note(fmt.Sprintf("prelen=%d", len(pre)))
 		r := vfE8LStart(f)
 		nm := 1 + r0.Intn(4)
 		for i := 0; i < nm; i++ {
@@ -558,6 +711,9 @@ func TestVerifToFileLinesChild(t *testing.T) {
 func vfE8LRunChild(root, name, geni string) (exit string) {
 	cmd := exec.Command("timeout", "-s", "KILL", "60", os.Args[0], "-test.run", "^TestVerifToFileLinesChild$", "-test.count=1", "-test.timeout=0")
 	cmd.Env = append(os.Environ(), "VF_E8_LINES_CASE="+name, "VF_E8_LINES_ROOT="+root, "VF_E8_LINES_GEN="+geni)
+	if name == "gen" || strings.HasPrefix(name, "unreadable-") {
+		vfE8LUnreadableCmd(cmd, root) // round 11: these children create files they may write but not read
+	}
 	if ef, err := os.Create(filepath.Join(root, "stderr_"+name+".txt")); err == nil {
 		cmd.Stderr = ef
 		defer ef.Close()
@@ -581,8 +737,11 @@ func TestVerifToFileLines(t *testing.T) {
 	}
 	vo := vfOpen("tflines")
 	defer vo.Close()
-	fmt.Printf("LINESPROBE one_write=%d seals_tail=%d\n", vfE8LB(vfE8ProbeOneWrite()), vfE8LB(vfE8ProbeSealsTail()))
-	scenarios := [][]string{{"torn-pre"}, {"clean-pre"}, {"torn-pre-rotsize"}, {"torn-pre-workdir"}, {"torn-pre-1byte"}, {"kill1", "kill2"}, {"two-routers"}}
+	srw := vfE8ProbeSealReadWarns() // before the children are started: they inherit VF_E8_SRW
+	fmt.Printf("LINESPROBE one_write=%d seals_tail=%d seal_read_warns=%d inject=%s\n", vfE8LB(vfE8ProbeOneWrite()), vfE8LB(vfE8ProbeSealsTail()),
+		srw, vfE8LSRWHow)
+	scenarios := [][]string{{"torn-pre"}, {"clean-pre"}, {"torn-pre-rotsize"}, {"torn-pre-workdir"}, {"torn-pre-1byte"}, {"kill1", "kill2"}, {"two-routers"},
+		{"unreadable-torn"}, {"unreadable-clean"}, {"unreadable-empty"}}
 	ngen := vfEnvInt("VERIF_N", 24)
 	for i := 0; i < ngen; i++ {
 		scenarios = append(scenarios, []string{fmt.Sprintf("gen:%d", i)})
@@ -629,6 +788,14 @@ func TestVerifToFileLines(t *testing.T) {
 				case l == "END":
 					ended = true
 				}
+			}
+			if !ended && op != "" && exits[len(exits)-1] == "1" {
+				// the tool took os.Exit(1) inside the event `op` (round 11: unreadable file on the committed shape): the parent
+				// completes the event and the script with what is on disk now — nothing was FINished in that event
+				vo.Case(op, fmt.Sprintf("st=fatal fin=[] files=%s", vfE8LTreeLine(vfE8LTree(root), false)))
+				vo.Case("tf tree", fmt.Sprintf("st=fatal tree=%s", vfE8LTreeLine(vfE8LTree(root), true)))
+				notes = append(notes, "fatal-in="+strings.Join(strings.Fields(op)[:2], "-"))
+				ended = true
 			}
 			if child != "kill1" && !ended {
 				complete = false
